@@ -353,6 +353,7 @@ class Plugin(object):
         unit._settings = plugin_settings(unit._identifier, unit.get_settings_defaults(), pre[0], pre[1])
         self.unit = unit
         self.user = StubUser(False)
+        self.file_path = "part.gcode"
         M.current_user = self.user
         self.write_settings(settings or {}, fire=False)
         unit.initialize()
@@ -380,8 +381,17 @@ class Plugin(object):
             self.event("SettingsUpdated")
 
     def event(self, name, payload=None):
+        """Deliver an OctoPrint event with a realistic payload (file and print events carry name/path/origin)."""
         self.M.current_user = self.user
-        self.unit.on_event(name, payload or {})
+        if payload is None:
+            payload = {}
+            if name.startswith("Print") or name.startswith("File"):
+                payload = dict(name=os.path.basename(self.file_path), path=self.file_path, origin="local", size=12345, owner=None)
+                if name in ("PrintDone", "PrintFailed", "PrintCancelled"):
+                    payload["time"] = 12.5
+        elif "path" in payload:
+            self.file_path = payload["path"]
+        self.unit.on_event(name, dict(payload))
 
     def api(self, command, data, anon=False):
         self.user.anon = anon
